@@ -499,6 +499,35 @@ func parseFenceMsg(body string) (fenceMsg, string, error) {
 // compareFenceSeq checks a receiver's sequence against the expected one.
 // Optional expected messages may be absent.
 func compareFenceSeq(want []fenceMsg, got []fenceMsg, nofields bool) error {
+	// With optional elements a received message may equal an optional expected one AND a later
+	// required one (two deletes of the same id, the first beyond the retention of a failing
+	// endpoint): taking the earliest match is then wrong. Decide by dynamic programming whether
+	// the received sequence is the expected one with some optional elements left out; the
+	// left-to-right walk below only words the complaint.
+	hasOpt := false
+	for _, m := range want {
+		hasOpt = hasOpt || m.optional
+	}
+	if hasOpt {
+		n, k := len(want), len(got)
+		prev := make([]bool, k+1) // prev[i]: got[:i] explained by want[:j-1]
+		prev[0] = true
+		for j := 1; j <= n; j++ {
+			cur := make([]bool, k+1)
+			for i := 0; i <= k; i++ {
+				if want[j-1].optional && prev[i] {
+					cur[i] = true
+				}
+				if i > 0 && prev[i-1] && sameFenceMsg(want[j-1], got[i-1], nofields) {
+					cur[i] = true
+				}
+			}
+			prev = cur
+		}
+		if prev[k] {
+			return nil
+		}
+	}
 	i, j := 0, 0
 	for i < len(want) || j < len(got) {
 		if i < len(want) && j < len(got) && sameFenceMsg(want[i], got[j], nofields) {
